@@ -342,7 +342,7 @@ func c09SeqPlans(L int, R []QUICCryptoRange, maxK int, visit func(dgs [][]QUICCr
 // c09FlightVerdict is the shared observation point: what planInitialFlight would do with
 // the result of BuildFlight. mustAccept: the model says the plan is in range, covers the
 // stream and fits (ample budget).
-func c09FlightVerdict(who string, describe func() string, payloads [][]byte, berr error, L int, mustAccept bool, acc *c09Acc) *explore.Fail {
+func c09FlightVerdict(who string, describe func() string, payloads [][]byte, berr error, L int, mustAccept, allBudgets bool, acc *c09Acc) *explore.Fail {
 	if berr != nil {
 		if mustAccept {
 			return explore.Failf(who+":in-range-rejected", "%s: the plan lies inside the stream and covers it, BuildFlight returned %v", describe(), berr)
@@ -378,6 +378,9 @@ func c09FlightVerdict(who string, describe func() string, payloads [][]byte, ber
 	}
 	if len(payloads) > 0 {
 		variants = append(variants, bv{"exact", exact, true}, bv{"unchecked", []InitialDatagramBudget{{}, {}}, true})
+	}
+	if !allBudgets {
+		variants = variants[:1]
 	}
 	for _, v := range variants {
 		verr := validateInitialFlight(payloads, v.b, L)
@@ -457,7 +460,7 @@ func c09QFlightPart() explore.Part {
 		describe := func() string { return fmt.Sprintf("QUICFlightFrames%v on a %d byte stream", dgs, L) }
 		return c09Safe("QUICFlightFrames", func() *explore.Fail {
 			payloads, err := f.BuildFlight(c09Slice(0, L), []InitialDatagramBudget{{MaxFrameBytes: 1200}})
-			if fl := c09FlightVerdict("QUICFlightFrames", describe, payloads, err, L, inRange && covers && !emptyRange && len(dgs) > 0 && L > 0, acc); fl != nil {
+			if fl := c09FlightVerdict("QUICFlightFrames", describe, payloads, err, L, inRange && covers && !emptyRange && len(dgs) > 0 && L > 0, true, acc); fl != nil {
 				return fl
 			}
 			p, err := f.Build(c09Slice(0, L))
@@ -595,12 +598,12 @@ func c09RFCases(thorough bool) []c09RFCase {
 			})
 			if !thorough {
 				// quick: the three-range plans that cover the stream (the documented use)
-				c09SeqPlans(L, R[:6], 3, func(dgs [][]QUICCryptoRange) bool {
+				c09SeqPlans(L, R[:min(6, len(R))], 3, func(dgs [][]QUICCryptoRange) bool {
 					n := 0
 					for _, d := range dgs {
 						n += len(d)
 					}
-					if _, cov, _, _ := (c09Plan{L: L, Dgs: dgs}).covers(); n == 3 && cov && pi < 5 && pi != 3 {
+					if _, cov, _, _ := (c09Plan{L: L, Dgs: dgs}).covers(); n == 3 && cov && pi < 2 {
 						cs = append(cs, c09RFCase{L, pi, dgs})
 					}
 					return true
@@ -612,9 +615,17 @@ func c09RFCases(thorough bool) []c09RFCase {
 	return cs
 }
 
+func c09RFEnum(e explore.Env) *c09Enum {
+	if e.Thorough() {
+		return &c09Enum{Cap: 4000, RedCap: 1500, MaxDev: 3, Interest: c09Interest(0)}
+	}
+	return &c09Enum{Cap: 400, RedCap: 200, MaxDev: 3, Interest: c09Interest(0)}
+}
+
 func c09QRFlightPart() explore.Part {
 	const rule = "QUICRandomFlightFrames.BuildFlight + validateInitialFlight and the Build fallback: PerDatagram plans of <= 3 ranges (11 spellings incl. negative offsets/lengths, empty and out-of-stream ranges) in every grouping into 1..3 datagrams, empty PerDatagram / empty CryptoRanges, 8 Frames presets (3 invalid); every draw (frame counts, cut lengths, PADDING lengths, Shuffle swaps) an explorer choice; stream lengths {0,1,2,3,5,63,64,65,1162,2300}; budgets {ample, exact, tiny, unchecked}"
-	one := func(c c09RFCase, acc *c09Acc) *explore.Fail {
+	one := func(c c09RFCase, acc *c09Acc, nth *int) *explore.Fail {
+		*nth++
 		pre := c09RFPresets[c.Preset]
 		f := &QUICRandomFlightFrames{}
 		for _, dg := range c.Dgs {
@@ -628,7 +639,7 @@ func c09QRFlightPart() explore.Part {
 		who := "QUICRandomFlightFrames"
 		return c09Safe(who, func() *explore.Fail {
 			payloads, err := f.BuildFlight(c09Slice(0, c.L), []InitialDatagramBudget{{MaxFrameBytes: 1200}})
-			if fl := c09FlightVerdict(who, describe, payloads, err, c.L, must, acc); fl != nil {
+			if fl := c09FlightVerdict(who, describe, payloads, err, c.L, must, *nth == 1, acc); fl != nil {
 				return fl
 			}
 			return nil
@@ -655,12 +666,13 @@ func c09QRFlightPart() explore.Part {
 			acc := c09NewAcc()
 			rep := explore.RunCases(e, len(cases), 1, true, func(i int) explore.CaseResult {
 				c := cases[i]
-				cr := c09DrawCase("qrflight", c09EnumFor(e, false, 0), acc, i, func() *explore.Fail { return one(c, acc) })
+				nth := 0
+				cr := c09DrawCase("qrflight", c09RFEnum(e), acc, i, func() *explore.Fail { return one(c, acc, &nth) })
 				if cr.Fail != nil {
 					return cr
 				}
 				if len(c.Dgs) <= 1 { // the fallback only looks at datagram 0
-					cr2 := c09DrawCase("qrflight", c09EnumFor(e, false, 0), acc, i, func() *explore.Fail { return fallback(c, acc) })
+					cr2 := c09DrawCase("qrflight", c09RFEnum(e), acc, i, func() *explore.Fail { return fallback(c, acc) })
 					cr2.Execs += cr.Execs
 					cr2.Trans += cr.Trans
 					if cr2.Fail != nil {
@@ -685,7 +697,8 @@ func c09QRFlightPart() explore.Part {
 				if r.Fallback {
 					return fallback(c, c09NewAcc())
 				}
-				return one(c, c09NewAcc())
+				nth := 0
+				return one(c, c09NewAcc(), &nth)
 			})
 			if f != nil {
 				return &explore.Violation{Key: f.Key, What: f.What}
